@@ -12,7 +12,7 @@ def gen_case(rng, i, tier):
     rates = [int(l.split(" ")[2]) for l in links]
     total = sum(lens)
     dur_ms = int(sum(1000.0 * n / r for n, r in zip(lens, rates)))
-    ops = ["case %d" % i] + links + V.gen_splits(rng, links)
+    ops = ["case %d" % i] + V.with_mux(rng, links) + V.gen_splits(rng, links)
     if rng.random() < 0.15:
         # junk between the links must not matter
         ops.insert(rng.randrange(2, len(ops) + 1), "garbage %d %d" % (rng.choice([1, 50, 700]), rng.randrange(1, 9999)))
